@@ -649,7 +649,13 @@ impl TypeAggregator {
                             .id
                             .as_deref()
                             .expect("interface has no id");
-                        if !self.imports.contains_key(name) {
+                        // The interface may already be imported under a different,
+                        // semver-compatible name (the interface keeps the name it was
+                        // first seen with, while the import is named after the highest
+                        // version); importing it again would duplicate the import.
+                        if !self.imports.contains_key(name)
+                            && self.find_semver_compatible_import(name).is_none()
+                        {
                             self.imports
                                 .insert(name.to_owned(), ItemKind::Instance(owner));
                         }
